@@ -1,0 +1,56 @@
+//go:build verif
+
+package radius
+
+import (
+	"context"
+	"fmt"
+	"net"
+	"sync/atomic"
+)
+
+// Verification hooks for property C15 (CoA/Disconnect listener). Accessors and a recover-safe way to
+// run the unmodified receiveLoop; no behaviour of their own. Compiled only with -tags verif.
+
+// VerifLocalAddr returns the address the listener socket is bound to (nil before Start).
+func (s *CoAServer) VerifLocalAddr() *net.UDPAddr {
+	if s.conn == nil {
+		return nil
+	}
+	a, _ := s.conn.LocalAddr().(*net.UDPAddr)
+	return a
+}
+
+// VerifStartRecover performs the socket setup of Start and runs receiveLoop in a goroutine that
+// recovers from a panic and reports it on the returned channel instead of ending the process.
+func (s *CoAServer) VerifStartRecover(ctx context.Context) (chan string, error) {
+	addr, err := net.ResolveUDPAddr("udp", s.addr)
+	if err != nil {
+		return nil, fmt.Errorf("failed to resolve address: %w", err)
+	}
+	conn, err := net.ListenUDP("udp", addr)
+	if err != nil {
+		return nil, fmt.Errorf("failed to listen: %w", err)
+	}
+	s.conn = conn
+	atomic.StoreInt32(&s.running, 1)
+	ch := make(chan string, 16)
+	s.verifRunLoop(ctx, ch)
+	return ch, nil
+}
+
+// VerifRestartLoop runs receiveLoop again on the existing socket after a reported panic.
+func (s *CoAServer) VerifRestartLoop(ctx context.Context, ch chan<- string) {
+	s.verifRunLoop(ctx, ch)
+}
+
+func (s *CoAServer) verifRunLoop(ctx context.Context, ch chan<- string) {
+	go func() {
+		defer func() {
+			if r := recover(); r != nil {
+				ch <- fmt.Sprint(r)
+			}
+		}()
+		s.receiveLoop(ctx)
+	}()
+}
